@@ -70,3 +70,43 @@ Example C12_type_fence_nonvacuous :
   pmem (JStr (kw "number")) [JStr (kw "string")] = false /\
   exists samples, In (kw "number", samples) default_samples /\ samples <> [].
 Proof. vm_compute. repeat split; try (repeat constructor). eexists. split; [right; left; reflexivity|discriminate]. Qed.
+
+Local Close Scope string_scope.
+
+(* required: parse_object runs obj_step once per declared property (and rem_step once per required name that is not
+   declared) -- the loop bodies of the Python code, named *)
+Theorem C12_object_loop f (d : dict) (p : pointer) (st : jbst) : parse_object (S f) d p st =
+ (do props <- read_dict d "properties";
+  let props := match props with Some x => x | None => [] end in
+  do _ <- check_dict d "additionalProperties";
+  do _ <- read_num d "minProperties"; do _ <- read_num d "maxProperties";
+  do _ <- check_dict d "patternProperties"; do _ <- check_dict d "propertyNames";
+  do _ <- check_dict d "unevaluatedProperties"; do _ <- check_dict d "dependentRequired";
+  do _ <- check_dict d "dependentSchemas";
+  do required <- read_list d "required";
+  let required := match required with Some x => x | None => [] end in
+  do req <- foldM (fun acc tok => match tok with
+                                  | JStr s => if smem s acc then jerr else Ok (acc ++ [s])
+                                  | _ => jerr end) required [];
+  let '(st, super) := jnoop false (sfx p "_OBJECT") st in
+  let '(st, root) := jnew (KDec true false) None JPObj st in
+  let st := jadd super root st in
+  do '(st, remaining) <-
+    foldM (obj_step f p root) props (st, req);
+  let st := fold_left (rem_step p root) remaining st in
+  let st := match outs_of (jb_graph st) root with
+            | [] => let '(st, l) := jnoop_leaf true st in jadd root l st
+            | _ => st end in
+  Ok (st, super)).
+Proof. reflexivity. Qed.
+Print Assumptions C12_object_loop.
+
+(* ... and obj_step gives the property's decision an omission leaf that is marked invalid exactly when the property is
+   still among the required names (so a sample with the property left out exists, and its label follows 'required') *)
+Theorem C12_required_fenced : forall f p root s rem key value s' rem',
+  jgi s -> root < jlen s -> is_dec (jb_graph s) root = true ->
+  obj_step f p root (s, rem) (key, value) = Ok (s', rem') ->
+  exists omit, In omit (outs_of (jb_graph s') (jlen s)) /\ kind_of (jb_graph s') omit = KLeaf (negb (smem key rem)) /\
+               is_dec (jb_graph s') (jlen s) = true /\ rem' = filter (fun x => negb (str_eqb x key)) rem.
+Proof. exact obj_step_omit. Qed.
+Print Assumptions C12_required_fenced.
